@@ -93,6 +93,7 @@ ObsAccOK(o) ==
   /\ NoDup([i \in 1..Len(o.data) |-> o.data[i][1]])
   /\ {d[1] : d \in RangeOf(o.data)} = DOMAIN acc
   /\ \A d \in RangeOf(o.data) : acc[d[1]] = d[2]
+  /\ o.nocopy = o.data                 \* DataNoCopy(g) shows the same row as Data(g)
   /\ o.ngroups = Cardinality(DOMAIN acc)
 
 TObs ==
